@@ -104,7 +104,7 @@ def one(rep, rng, j):
         lists = [[T] for T in allT] + [allT]
         core = importlib.import_module('vlab.tasks_core')
         alt = importlib.import_module('vlab.tasks_alt')
-        lists += [[core.VA, core.VAX], [core.VAX, core.VA], [alt.VA, core.VA], [core.VJ, core.VA]]
+        lists += [[core.VA, core.VAX], [core.VAX, core.VA], [alt.VA, core.VA], [core.VJ, core.VA], [core.VA, core.VA]]
         pre_events = len(events.read_events(ctl))
         lab2 = labtech.Lab(storage=make_storage(skind, store), runner_backend='serial')
         for tl in lists:
